@@ -55,7 +55,7 @@ def fits24(self):
     return use_lemma(cat_len, self._avps) and 20 + slen(self._avps) < MAX24
 
 
-@contract("bromelia.base.DiameterMessage.refresh", prop="C01", name="_")
+@contract("bromelia.base.DiameterMessage.refresh", prop="C01", name="_", also=("C11",))
 class _Refresh:
     """re-establishes the length invariant whatever the header said before"""
     args = {"self": msg_shape()}
@@ -107,7 +107,7 @@ def _abstract_message(ctx, ns):
     return isinstance(m.idict, SymDict) or isinstance(avps, SSeq)
 
 
-@contract("bromelia.base.DiameterMessage.append", prop="C01", name="length")
+@contract("bromelia.base.DiameterMessage.append", prop="C01", name="length", also=("C11",))
 class _Append:
     """append(avp): the AVP becomes the last list element; unless the message was decoded from the
     wire, the Message Length grows by exactly the AVP's on-wire size (length + padding)"""
@@ -180,7 +180,7 @@ class Snapshot(object):
         self.length = length
 
 
-@contract("bromelia.base.DiameterMessage.extend", prop="C01", name="_")
+@contract("bromelia.base.DiameterMessage.extend", prop="C01", name="_", also=("C11",))
 class _Extend:
     """extend(avps) appends every element in order; Message Length grows by their total wire size"""
     args = {"self": msg_shape(), "avps": T.Seq(AVP_ELEM)}
@@ -233,7 +233,7 @@ def init_snapshot(header):
     return ghost_set("len0", unbe(header._length))
 
 
-@contract("bromelia.base.DiameterMessage.__init__", prop="C01", name="_")
+@contract("bromelia.base.DiameterMessage.__init__", prop="C01", name="_", also=("C11",))
 class _MInit:
     """DiameterMessage(header, avps, loaded): the AVP list is exactly `avps` in order; a message
     built from parts gets Message Length = header's length + total wire size; a message decoded
